@@ -60,6 +60,20 @@ impl SysSpec {
             let e = t.build(ctx);
             sys.constraints.push(e);
         }
+        if self.name.contains("labelled") {
+            // what the btor2 reader does with the label of an output / bad / constraint line: it becomes the
+            // name of the node the line points at, also when that node is an input symbol (a state symbol
+            // is renamed instead, which is not modelled here)
+            let outs: Vec<(String, ExprRef)> = sys.outputs.iter().map(|o| (ctx[o.name].to_string(), o.expr)).collect();
+            let mut labels: Vec<(String, ExprRef)> = outs;
+            labels.extend(sys.bad_states.iter().enumerate().map(|(i, e)| (if i == 0 { "_bad".to_string() } else { format!("_bad_{i}") }, *e)));
+            labels.extend(sys.constraints.iter().enumerate().map(|(i, e)| (if i == 0 { "_constraint".to_string() } else { format!("_constraint_{i}") }, *e)));
+            for (n, e) in labels {
+                if !states.contains(&e) {
+                    sys.names[e] = Some(ctx.string(n.into()));
+                }
+            }
+        }
         Built { sys, inputs, states }
     }
 
@@ -746,6 +760,16 @@ pub fn corner_extras() -> Vec<SysSpec> {
     if INIT_INPUT_EXTRAS { out.push(mk("X-initinput", vec![("b2", 2), ("b1", 1)], vec![st("a2", 2, Some(bb()), Some(inc(a())))], vec![b(Bin::Eq, a(), l(2, 2))], vec![T::not(b(Bin::Eq, bb(), l(2, 2))), f()])); }
     // a free state (neither init nor next) feeding a counter
     out.push(mk("X-freefeed", vec![], vec![st("a2", 2, None, None), st("b2", 2, Some(l(2, 0)), Some(b(Bin::Add, bb(), a())))], vec![b(Bin::Eq, bb(), l(2, 3))], vec![b(Bin::Ugt, l(2, 2), a())]));
+    // labelled roots as the btor2 reader leaves them: an input that is directly an output / a bad state / a
+    // constraint carries that line's label as its name in `sys.names`
+    let g = || s("c1", 1);
+    out.push(mk("X-alias-labelled", vec![("b1", 1), ("c1", 1), ("b2", 2)], vec![st("a1", 1, Some(l(1, 0)), Some(b(Bin::Or, e(), f())))], vec![b(Bin::And, e(), b(Bin::Eq, bb(), l(2, 2)))], vec![g()]));
+    out.push(mk("X-alias-labelled", vec![("b1", 1), ("c1", 1)], vec![st("a2", 2, Some(l(2, 0)), Some(b(Bin::Add, a(), T::ZExt(1, Box::new(f())))))], vec![g(), b(Bin::Eq, a(), l(2, 2))], vec![T::not(b(Bin::And, g(), f()))]));
+    {
+        let mut sp = mk("X-alias-labelled", vec![("b1", 1), ("b2", 2)], vec![st("a2", 2, Some(l(2, 0)), Some(b(Bin::Add, a(), bb())))], vec![b(Bin::And, f(), b(Bin::Eq, a(), l(2, 3)))], vec![]);
+        sp.outputs = vec![("en_o".into(), f()), ("data_o".into(), bb()), ("sum_o".into(), b(Bin::Add, a(), bb()))];
+        out.push(sp);
+    }
     // a bad state that is at once a constraint root; a bad state that is a bare state symbol of width 1
     out.push(mk("X-rootshare", vec![("b1", 1)], vec![st("a1", 1, Some(l(1, 0)), Some(b(Bin::Or, e(), f())))], vec![e(), b(Bin::And, e(), f())], vec![T::not(b(Bin::And, e(), f()))]));
     out
